@@ -13,7 +13,8 @@ Proved on the core model:
   `C04_fresh_pid_never_listed`, `C04_total_listed_nodup`.
 * `C04_numprocesses_counts_listed`, `C04_list_reports_active_listed`, `C04_active_sublist`: what the
   commands report is computed from that same `pids` list.
-* `C04_reap_pops`, `C04_manage_drops_dead`: a listed pid whose status reads dead at its turn of the
+* `C04_reap_pops`, `C04_reap_pops_any_hook_outcome` (the `before_reap` / `after_reap` hooks gate nothing),
+  `C04_manage_drops_dead`: a listed pid whose status reads dead at its turn of the
   periodic `manage_processes` loop is handed to `reap_process` and is not listed after the loop;
   `C04_dead_pid_dropped_by_check`: a listed pid that is dead in the kernel when the loop starts is
   not listed when it ends (dead stays dead: `KMono`).
@@ -265,6 +266,15 @@ theorem C04_reap_pops (u pid : Nat) (st : Option Nat) (s : State) :
   have := reapProcess_removes u pid (getW u s).1.pids st s (fun x hx => hx) pid h
   simp at this
 
+/-- **… for every outcome of the reap hooks**: `before_reap` runs before the pop and `after_reap`
+    after the `reap` event, but neither is a gate — whether `before_reap` evaluates to true or false
+    (`r`; a raising hook counts as false unless it is in the ignore-failure list) and whatever
+    `after_reap` does, the pid is not listed after `reap_process(pid)`.  (A variant of the code that
+    returned early on a false `before_reap` would keep a dead pid listed for ever.) -/
+theorem C04_reap_pops_any_hook_outcome (u pid : Nat) (st : Option Nat) (s : State) (r : Bool)
+    (_hr : (callHook u "before_reap" s).1 = r) : pid ∉ (getW u (reapProcess u pid st s).2).1.pids :=
+  C04_reap_pops u pid st s
+
 /-- … and lists nothing it did not list before -/
 theorem reapProcess_subset (u pid : Nat) (st : Option Nat) (s : State) :
     ∀ x ∈ (getW u (reapProcess u pid st s).2).1.pids, x ∈ (getW u s).1.pids ∧ x ≠ pid := by
@@ -367,6 +377,7 @@ structure LeafD (I : State → Prop) : Prop where
   runK : ∀ {α : Type} (f : Kernel → Kernel × α), KMonoOp f → Pres I (runK f)
   emitEv : ∀ w t p x, Pres I (emitEv w t p x)
   popPid : ∀ u p, Pres I (popPid u p)
+  bumpHook : ∀ u h i, Pres I (bumpHook u h i)
   setObjStopping : ∀ p b, Pres I (setObjStopping p b)
   setRc : ∀ p rc, Pres I (setRc p rc)
   markBlocked : Pres I markBlocked
@@ -375,7 +386,7 @@ section
 variable {I : State → Prop}
 
 attribute [local aesop safe apply] Pres.pure Pres.getS Pres.getK Pres.getA Pres.getW Pres.getO Pres.nowMs
-  Pres.bind Pres.ite Pres.for_in LeafD.emit LeafD.emitEv LeafD.popPid LeafD.setObjStopping LeafD.setRc LeafD.markBlocked
+  Pres.bind Pres.ite Pres.for_in LeafD.emit LeafD.emitEv LeafD.popPid LeafD.bumpHook LeafD.setObjStopping LeafD.setRc LeafD.markBlocked
 
 macro "presd" : tactic =>
   `(tactic| aesop (config := { terminal := true, useDefaultSimpSet := false, useSimpAll := false, maxRuleApplications := 3000 }))
@@ -395,6 +406,10 @@ attribute [local aesop safe apply] kSleep_presd
 theorem notify_presd (L : LeafD I) (u : Nat) (t : String) (p : Option Nat) (x : String) : Pres I (notify u t p x) := by
   unfold notify; presd
 attribute [local aesop safe apply] notify_presd
+/-- the `before_reap` / `after_reap` hooks of `reap_process` -/
+theorem callHook_presd (L : LeafD I) (u : Nat) (h : String) : Pres I (callHook u h) := by
+  unfold callHook; presd
+attribute [local aesop safe apply] callHook_presd
 theorem procStatus_presd (L : LeafD I) (pid : Nat) : Pres I (procStatus pid) := by
   unfold procStatus; presd
 attribute [local aesop safe apply] procStatus_presd
@@ -428,6 +443,7 @@ theorem deadLeafD (pid : Nat) : LeafD (fun s => s.k.DeadIn pid) where
   runK := fun f hf => by intro s hs; exact (hf s.k).deadIn hs
   emitEv := fun w t p x => by intro s hs; simp only [emitEv, modS]; split <;> exact hs
   popPid := fun u p => fun s hs => hs
+  bumpHook := fun u h i => fun s hs => hs
   setObjStopping := fun p b => fun s hs => hs
   setRc := fun p rc => fun s hs => hs
   markBlocked := fun s hs => hs
@@ -900,6 +916,9 @@ def exCfg : List Watcher := [{ name := "a", np := 2 }, { name := "b" }]
 def exS : State := run (initState exCfg [{}] 0) [.start, .wake, .wake, .wake]
 /-- … then worker 100 dies -/
 def exD : State := run (initState exCfg [{}] 0) [.start, .wake, .wake, .wake, .die 100 9]
+/-- the same with a `before_reap` hook that says no and an `after_reap` hook that raises -/
+def exHD : State := run (initState [{ name := "a", np := 2, hooks := [("before_reap", { outs := ["false"], ignore := false }),
+    ("after_reap", { outs := ["raise"], ignore := false })] }, { name := "b" }] [{}] 0) [.start, .wake, .wake, .wake, .die 100 9]
 /-- a watcher whose `after_spawn` hook rejects every worker, right after `Popen()` -/
 def vetoCfg : List Watcher := [{ name := "v", hooks := [("after_spawn", { outs := ["false"], ignore := false })] }]
 def exV : State := (spawnAdopt 1 1 (initState vetoCfg [{}] 0)).2
@@ -919,6 +938,12 @@ example : (getW 1 exD).1.pids = [100, 101] ∧ (100, exD) ∈ manageTurns 1 [100
     isDead (procStatus 100 exD).1 = true :=
   ⟨by decide +kernel, List.mem_cons_self, by decide +kernel⟩
 example : (getW 1 ((forIn (getW 1 exD).1.pids PUnit.unit (manageBody 1) : M PUnit) exD).2).1.pids = [101] := by
+  decide +kernel
+-- … also when the watcher's `before_reap` hook says no and its `after_reap` hook raises
+example : (getW 1 exHD).1.pids = [100, 101] ∧ (callHook 1 "before_reap" exHD).1 = false ∧
+    isDead (procStatus 100 exHD).1 = true ∧
+    (getW 1 (reapProcess 1 100 none exHD).2).1.pids = [101] ∧
+    (getW 1 ((forIn (getW 1 exHD).1.pids PUnit.unit (manageBody 1) : M PUnit) exHD).2).1.pids = [101] := by
   decide +kernel
 -- `spawn_process`: a free wid, a successful `Popen()`
 example : (∃ w ∈ exS.ws, w.uid = 2) ∧ nextWid (getW 2 exS).1.np (usedWids 2 exS).1 = some 2 ∧
